@@ -10,27 +10,40 @@ Open Scope Z_scope.
 Definition env_const (v : Z) (gate : bool) : env :=
   mk_env (fun _ _ => v) (fun _ _ => 0) (fun _ _ => Some 4) (fun _ _ => gate) (fun _ _ _ => Some 0).
 
+(* [outcomes L argv E len]: None if `read` fails, else the outcome of every getter *)
+Definition outcomes (L : rlayout) (argv : list Z) (E : env) (len : Z) : option (list gout) :=
+  match run_read L argv E len with
+  | Some m => Some (map (eval_getter L E m len) (r_getters L))
+  | None => None
+  end.
+Definition ranges (L : rlayout) (argv : list Z) (E : env) (len : Z) : option (list (string * rval)) :=
+  match run_read L argv E len with Some m => ranges_of L m | None => None end.
+Definition panics (L : rlayout) (argv : list Z) (E : env) (len : Z) : bool :=
+  match outcomes L argv E len with
+  | Some l => existsb (fun o => match o with GPanic => true | _ => false end) l
+  | None => false
+  end.
+
 (* the hypotheses of getters_safe are satisfiable: `gasp` with num_ranges = 2 needs 4 + 2*4 = 12 bytes *)
 Example gasp_reads : wf_safe L_Gasp = true /\
-  (exists m, run_read L_Gasp [] (env_const 2 false) 12 = Some m /\
-             map (eval_getter L_Gasp (env_const 2 false) m 12) (r_getters L_Gasp) = [GValue; GValue; GValue] /\
-             ranges_of L_Gasp m = Some [("gasp_ranges", RRange 4 12); ("num_ranges", RRange 2 4); ("version", RRange 0 2)]).
-Proof. split; [reflexivity|]. eexists. split; [reflexivity|]. split; reflexivity. Qed.
+  outcomes L_Gasp [] (env_const 2 false) 12 = Some [GValue; GValue; GValue] /\
+  ranges L_Gasp [] (env_const 2 false) 12
+    = Some [("gasp_ranges", RRange 4 12); ("num_ranges", RRange 2 4); ("version", RRange 0 2)].
+Proof. vm_compute. repeat split. Qed.
 Example gasp_too_short : run_read L_Gasp [] (env_const 2 false) 11 = None.
-Proof. reflexivity. Qed.
+Proof. vm_compute. reflexivity. Qed.
 
 (* gated fields: `post` version 2 (gate on) has num_glyphs / glyph_name_index / string_data, version 3 (gate off) does not *)
-Example post_gate_on : exists m, run_read L_Post [] (env_const 1 true) 40 = Some m /\
-  map (eval_getter L_Post (env_const 1 true) m 40) (skipn 9 (r_getters L_Post)) = [GValue; GValue; GValue].
-Proof. eexists. split; reflexivity. Qed.
-Example post_gate_off : exists m, run_read L_Post [] (env_const 1 false) 32 = Some m /\
-  map (eval_getter L_Post (env_const 1 false) m 32) (skipn 9 (r_getters L_Post)) = [GAbsent; GAbsent; GAbsent].
-Proof. eexists. split; reflexivity. Qed.
+Example post_gate_on :
+  option_map (skipn 9) (outcomes L_Post [] (env_const 1 true) 40) = Some [GValue; GValue; GValue].
+Proof. vm_compute. reflexivity. Qed.
+Example post_gate_off :
+  option_map (skipn 9) (outcomes L_Post [] (env_const 1 false) 32) = Some [GAbsent; GAbsent; GAbsent].
+Proof. vm_compute. reflexivity. Qed.
 
-(* a table with read arguments and a ComputedArray getter *)
-Example pairset_reads : exists m, run_read L_PairSet [4; 0] (env_const 3 false) 14 = Some m /\
-  map (eval_getter L_PairSet (env_const 3 false) m 14) (r_getters L_PairSet) = [GValue; GValue].
-Proof. eexists. split; reflexivity. Qed.
+(* a table with read arguments and a ComputedArray getter (record size 4 from env_const's compute_size) *)
+Example pairset_reads : outcomes L_PairSet [4; 0] (env_const 3 false) 14 = Some [GValue; GValue].
+Proof. vm_compute. reflexivity. Qed.
 
 Example many_layouts : (200 <=? Z.of_nat (List.length (layouts_except known_unsafe all_layouts))) = true.
 Proof. vm_compute. reflexivity. Qed.
@@ -41,18 +54,15 @@ Proof. vm_compute. reflexivity. Qed.
 Definition Gasp_dropped_advance : rlayout :=
   mk_rlayout "Gasp" [] (tl (r_ops L_Gasp)) (r_marker L_Gasp) (r_rules L_Gasp) (r_getters L_Gasp).
 Example dropped_advance_refuted : wf_safe Gasp_dropped_advance = false /\
-  exists m, run_read Gasp_dropped_advance [] (env_const 0 false) 2 = Some m /\
-            In GPanic (map (eval_getter Gasp_dropped_advance (env_const 0 false) m 2) (r_getters Gasp_dropped_advance)).
-Proof. split; [reflexivity|]. eexists. split; [reflexivity|]. vm_compute. tauto. Qed.
+  panics Gasp_dropped_advance [] (env_const 0 false) 2 = true.
+Proof. vm_compute. split; reflexivity. Qed.
 
 (* (2) the checked_mul uses another element size than the getter's read_array *)
 Definition Gasp_wrong_size : rlayout :=
   mk_rlayout "Gasp" [] [OAdvance 2; ORead "num_ranges" 2; OLen "gasp_ranges" (LMul (CLocal "num_ranges") (ESz 3)); OAdvanceBy "gasp_ranges"]
              (r_marker L_Gasp) (r_rules L_Gasp) (r_getters L_Gasp).
-Example wrong_size_refuted : wf_safe Gasp_wrong_size = false /\
-  exists m, run_read Gasp_wrong_size [] (env_const 1 false) 7 = Some m /\
-            In GPanic (map (eval_getter Gasp_wrong_size (env_const 1 false) m 7) (r_getters Gasp_wrong_size)).
-Proof. split; [reflexivity|]. eexists. split; [reflexivity|]. vm_compute. tauto. Qed.
+Example wrong_size_refuted : wf_safe Gasp_wrong_size = false /\ panics Gasp_wrong_size [] (env_const 1 false) 7 = true.
+Proof. vm_compute. split; reflexivity. Qed.
 
 (* (3) the gate of `position()` differs from the gate of the advance *)
 Definition env_gateA : env :=
@@ -65,19 +75,16 @@ Definition Gate_match : rlayout :=
   mk_rlayout "T" [] [ORead "version" 2; OCondStart "x" (Cond "version" "A"); OCondAdvance (Cond "version" "A") 2] ["x_byte_start"]
              (r_rules Gate_mismatch) (r_getters Gate_mismatch).
 Example gate_mismatch_refuted : wf_safe Gate_match = true /\ wf_safe Gate_mismatch = false /\
-  exists m, run_read Gate_mismatch [] env_gateA 2 = Some m /\
-            In GPanic (map (eval_getter Gate_mismatch env_gateA m 2) (r_getters Gate_mismatch)).
-Proof. split; [reflexivity|]. split; [reflexivity|]. eexists. split; [reflexivity|]. vm_compute. tauto. Qed.
+  panics Gate_mismatch [] env_gateA 2 = true /\ panics Gate_match [] env_gateA 4 = false.
+Proof. vm_compute. repeat split. Qed.
 
 (* (4) a getter reading a wider scalar than its range *)
 Definition Gasp_wide_getter : rlayout :=
   mk_rlayout "Gasp" [] (r_ops L_Gasp) (r_marker L_Gasp) (r_rules L_Gasp)
              [mk_getter "num_ranges" "num_ranges" false (AReadAt 4)].
-Example wide_getter_refuted : wf_safe Gasp_wide_getter = false /\
-  exists m, run_read Gasp_wide_getter [] (env_const 0 false) 4 = Some m /\
-            In GPanic (map (eval_getter Gasp_wide_getter (env_const 0 false) m 4) (r_getters Gasp_wide_getter)).
-Proof. split; [reflexivity|]. eexists. split; [reflexivity|]. vm_compute. tauto. Qed.
+Example wide_getter_refuted : wf_safe Gasp_wide_getter = false /\ panics Gasp_wide_getter [] (env_const 0 false) 4 = true.
+Proof. vm_compute. split; reflexivity. Qed.
 
 (* the var-len arrays read from range.start to the END of the data (over-read, not a panic): safe, not exact *)
 Example split_off_is_safe_not_exact : wf_safe L_Avar = true /\ wf_exact L_Avar = false.
-Proof. split; reflexivity. Qed.
+Proof. vm_compute. split; reflexivity. Qed.
